@@ -225,7 +225,7 @@ func (box *Ballotbox) MissingNodes(point base.StagePoint) ([]base.Address, bool,
 		}
 	}
 
-	switch suf, found, err := vr.getSuffrage(); {
+	switch suf, found, err := vr.getSuffrageLocked(); {
 	case err != nil:
 		return nil, false, err
 	case !found:
@@ -709,7 +709,12 @@ func (vr *voterecords) vote(
 	vr.Lock()
 	defer vr.Unlock()
 
-	if vr.sp.IsZero() {
+	// NOTE the voterecords may be released, and reused for the another stage
+	// point, before vote.
+	switch fact, ok := signfact.Fact().(base.BallotFact); {
+	case vr.sp.IsZero():
+		return false, false, nil
+	case !ok, !vr.sp.Equal(fact.Point()), vr.isc != isaac.IsSuffrageConfirmBallotFact(fact):
 		return false, false, nil
 	}
 
@@ -982,6 +987,19 @@ func (vr *voterecords) newVoteproof(
 
 func (vr *voterecords) getSuffrage() (base.Suffrage, bool, error) {
 	return vr.getSuffrageFunc(vr.sp.Height().SafePrev())
+}
+
+// getSuffrageLocked is for the callers, which does not hold the lock of
+// voterecords; the voterecords may be already released to the pool.
+func (vr *voterecords) getSuffrageLocked() (base.Suffrage, bool, error) {
+	vr.RLock()
+	defer vr.RUnlock()
+
+	if vr.sp.IsZero() || vr.getSuffrageFunc == nil {
+		return nil, false, nil
+	}
+
+	return vr.getSuffrage()
 }
 
 func (*voterecords) sfs(voted map[string]base.BallotSignFact) (
@@ -1273,7 +1291,7 @@ func (vr *voterecords) voteproofFromBallots(
 	threshold base.Threshold,
 	filter func(isaac.LastPoint, base.Voteproof) bool,
 ) bool {
-	if vr.isFinished() {
+	if vr.isFinished() || vr.sp.IsZero() || vr.getSuffrageFunc == nil {
 		return false
 	}
 
